@@ -1,10 +1,10 @@
-use syn::{spanned::Spanned, Data, DeriveInput, Field, Fields, Ident, Meta};
+use syn::{spanned::Spanned, Data, DeriveInput, Field, Fields, Ident, Meta, Type};
 
 use super::{
     models::{FieldAttributeBuilder, TypeAttributeBuilder},
     TraitHandler,
 };
-use crate::{panic, supported_traits::Trait};
+use crate::{common::r#type::dereference_stars, panic, supported_traits::Trait};
 
 pub(crate) struct DerefMutEnumHandler;
 
@@ -24,7 +24,7 @@ impl TraitHandler for DerefMutEnumHandler {
         let mut arms_token_stream = proc_macro2::TokenStream::new();
 
         if let Data::Enum(data) = &ast.data {
-            type Variants<'a> = Vec<(&'a Ident, bool, usize, Ident)>;
+            type Variants<'a> = Vec<(&'a Ident, bool, usize, Ident, &'a Type)>;
 
             let mut variants: Variants = Vec::new();
 
@@ -88,14 +88,17 @@ impl TraitHandler for DerefMutEnumHandler {
                     None => (format_ident!("_{}", index), true),
                 };
 
-                variants.push((&variant.ident, is_tuple, index, field_name));
+                variants.push((&variant.ident, is_tuple, index, field_name, &field.ty));
             }
 
             if variants.is_empty() {
                 return Err(super::panic::no_deref_mut_field(meta.span()));
             }
 
-            for (variant_ident, is_tuple, index, field_name) in variants {
+            for (variant_ident, is_tuple, index, field_name, ty) in variants {
+                // the patterns bind a reference to the field
+                let stars = dereference_stars(ty, 1);
+
                 let mut pattern_token_stream = proc_macro2::TokenStream::new();
 
                 if is_tuple {
@@ -106,7 +109,7 @@ impl TraitHandler for DerefMutEnumHandler {
                     pattern_token_stream.extend(quote!( #field_name, .. ));
 
                     arms_token_stream.extend(
-                        quote!( Self::#variant_ident ( #pattern_token_stream ) => #field_name, ),
+                        quote!( Self::#variant_ident ( #pattern_token_stream ) => &mut #stars #field_name, ),
                     );
                 } else {
                     // bind the field to another name, the field may be named like a constant or a variant in scope (e.g. `None`)
@@ -115,7 +118,7 @@ impl TraitHandler for DerefMutEnumHandler {
                     pattern_token_stream.extend(quote!( #field_name: #field_name_var, .. ));
 
                     arms_token_stream.extend(
-                        quote!( Self::#variant_ident { #pattern_token_stream } => #field_name_var, ),
+                        quote!( Self::#variant_ident { #pattern_token_stream } => &mut #stars #field_name_var, ),
                     );
                 }
             }
